@@ -12,7 +12,7 @@ VARIABLES steps,
           gotR,       \* messages delivered to the router, in order
           sentR,      \* messages the router handed to the peer: [id, n]
           gotC,       \* message frames the client read, in order
-          clientNib,  \* the length nibble the client announced
+          clientNib,  \* the length nibble the other end announced
           wasClosed   \* the connection has ended
 
 mvars == <<wvars, steps, sentC, gotR, sentR, gotC, clientNib, wasClosed>>
@@ -31,6 +31,8 @@ MCNext ==
   /\ steps < MaxSteps
   /\ \/ \E m \in BOOLEAN, ln \in {0, 1, 15}, sn \in {0, 1, 2, 4}, rz \in BOOLEAN :
           Handshake(m, ln, sn, rz) /\ clientNib' = ln /\ Record(<<>>, <<>>)
+     \/ \E m \in BOOLEAN, hi \in {0, 1, 15}, lo \in {0, 1, 2}, hang \in BOOLEAN :
+          ServerReply(m, hi, lo, hang) /\ clientNib' = hi /\ Record(<<>>, <<>>)
      \/ \E t \in {0, 1, 2, 3, 7}, len \in {0, 40, recvLimit, recvLimit + 1}, b \in {"msg", "junk", "short"} :
           /\ Frame(t, len, b, steps + 1) /\ UNCHANGED clientNib
           /\ Record(IF t = 0 /\ b = "msg" /\ len <= recvLimit THEN <<steps + 1>> ELSE <<>>, <<>>)
@@ -38,7 +40,7 @@ MCNext ==
           Send(n, steps + 1) /\ UNCHANGED clientNib /\ Record(<<>>, <<[id |-> steps + 1, n |-> n]>>)
      \/ Eof /\ UNCHANGED clientNib /\ Record(<<>>, <<>>)
 
-MCInit == /\ \E limit \in {0, 600} : WInitWith(limit)
+MCInit == /\ \E limit \in {0, 600}, connects \in BOOLEAN : IF connects THEN WInitClient(limit, 1) ELSE WInitWith(limit)
           /\ steps = 0 /\ sentC = <<>> /\ gotR = <<>> /\ sentR = <<>> /\ gotC = <<>> /\ clientNib = 0 /\ wasClosed = FALSE
 MCSpec == MCInit /\ [][MCNext]_mvars
 
